@@ -45,7 +45,9 @@ def unit_hostile_cid():
             try: interface.Cid().read("cid", rows)
             except errors.InterfaceError: return None
             except OverflowError as e:
-                if known and "99999999999999999999" in (c[3], c[6] if len(c) > 4 else None): escapes_known.append(c); return None
+                # K-6a is the *length* cell of an Integer field row holding an absurdly large number; an OverflowError from any other cell is a violation
+                def is_k6a(ri, ci, v): return v == "99999999999999999999" and rows[ri][0] == "f" and ci == 4 and len(rows[ri]) > 5 and rows[ri][5] == "Integer"
+                if known and (is_k6a(c[1], c[2], c[3]) or (len(c) > 4 and is_k6a(c[4], c[5], c[6]))): escapes_known.append(c); return None
                 return {"expected": "accepted or InterfaceError", "observed": "%s: %s" % (type(e).__name__, e)}
             except Exception as e: return {"expected": "accepted or InterfaceError", "observed": "%s: %s" % (type(e).__name__, str(e)[:120])}
             return None
@@ -54,6 +56,14 @@ def unit_hostile_cid():
                   describe=lambda c: {"cid": c[0], "row": c[1] + 1, "cell": c[2] + 1, "value": c[3]} if len(c) == 4 else {"cid": c[0], "cells": [(c[1] + 1, c[2] + 1, c[3]), (c[4] + 1, c[5] + 1, c[6])]},
                   function="interface.Cid.read", unit="C10.hostile.cid", props=["C10"])
         res = [r]
+        # numbers beyond a C int in the cells that denote one character (chr() raises OverflowError there, not ValueError); kept out of the general
+        # pool because the same numbers as an Integer *length* make create_range_from_length allocate gigabytes (the K-6a family)
+        def char_cases():
+            for ri, row in enumerate(BASE_CIDS["delimited"]):
+                if row[0] == "d" and row[1] in ("item delimiter", "quote character", "escape character", "decimal separator", "thousands separator"):
+                    for v in ("2147483648", "4294967296", "99999999999", "-2147483649", "0x100000000"): yield ("delimited", ri, 2, v)
+        res.append(sweep("C10/hostile/character-valued properties given as numbers beyond a C int", char_cases(), check, "bounded", "5 character properties x 5 numbers outside the C int range",
+                         describe=lambda c: {"cid": c[0], "row": c[1] + 1, "cell": c[2] + 1, "value": c[3]}, function="interface.Cid.read", unit="C10.hostile.cid", props=["C10"]))
         if escapes_known:
             res.append(Result("C10/K-6a witness: an absurdly large Integer length makes create_range_from_length raise OverflowError", "bounded", FAILED, "native", finding="K-6a", cases=len(escapes_known), props=["C10"],
                               detail=repr(escapes_known[0]), replay={"verdict": "confirmed", "input": repr(escapes_known[0]), "expected": "InterfaceError", "observed": "OverflowError"}))
